@@ -162,4 +162,19 @@ gen_ints(L, U) :-
 %    X = [5,6,7,8,9,10].
 % ```
 numlist(Lower, Upper, List) :-
-    gen_ints(Lower, Upper), findall(X, between(Lower, Upper, X), List).
+    can_be(integer, Lower), can_be(integer, Upper),
+    '$skip_max_list'(N, _, List, Tail),
+    (   Tail == [] ->
+        % List is a proper list: its length relates the two bounds,
+        % so at most one of them is enumerated.
+        N > 0,
+        (   integer(Lower) -> true
+        ;   integer(Upper) -> Lower is Upper - N + 1
+        ;   List = [First|_], integer(First) -> Lower = First
+        ;   gen_int(Lower)
+        ),
+        Upper is Lower + N - 1
+    ;   var(Tail),
+        gen_ints(Lower, Upper)
+    ),
+    findall(X, between(Lower, Upper, X), List).
